@@ -74,9 +74,15 @@ class Interp1d:
             break
         if not inc and not dec:
             raise NonMonotoneAbscissae("interp1d abscissae neither strictly increasing nor strictly decreasing")
+        self.raw_bisect = False
         if dec and not inc:
-            xs.reverse()
-            ys.reverse()
+            if assume_sorted:
+                # scipy trusts the caller: no argsort, np.searchsorted bisects the array as given.  On a descending axis
+                # that lands on a wrong segment and (with fill_value="extrapolate") extrapolates from it silently.
+                self.raw_bisect = True
+            else:
+                xs.reverse()
+                ys.reverse()
         self.x, self.y = xs, ys
         self.extrapolate = False
         if isinstance(fill_value, str):
@@ -114,8 +120,18 @@ class Interp1d:
         slope = (y1 - y0) / (x1 - x0)
         return slope * (q - x0) + y0
 
+    def _eval_bisect(self, q, lo, hi):
+        """np.searchsorted(x, q, side='left') unrolled on the array as given, then the segment scipy picks."""
+        n = len(self.x)
+        if lo >= hi:
+            return self._seg(min(max(lo, 1), n - 1), q)
+        mid = (lo + hi) // 2
+        return s_ite(lift(self.x[mid]) < lift(q), self._eval_bisect(q, mid + 1, hi), self._eval_bisect(q, lo, mid))
+
     def _eval_inside(self, q):
         n = len(self.x)
+        if self.raw_bisect:
+            return self._eval_bisect(q, 0, n)
         r = self._seg(n - 1, q)
         for k in range(n - 2, 0, -1):
             r = s_ite(lift(q) <= lift(self.x[k]), self._seg(k, q), r)
@@ -124,7 +140,7 @@ class Interp1d:
     def _one(self, q):
         if isinstance(q, Uninit):
             raise UninitRead()
-        if not self.extrapolate or True:
+        if not self.raw_bisect:
             qp = lift(q).p
             for k, xv in enumerate(self.x):
                 if lift(xv).p == qp and not isinstance(self.y[k], Inf):
@@ -549,6 +565,10 @@ def selftest(job, seed=0):
             for q in qs:
                 got = run(lambda: Interp1d(SymArray(X), SymArray(Y), **kw_sym)(Q(repr(q))))
                 job.validate("interp1d", float(got), float(real(q)), inputs={"x": xs, "y": ys, "q": q, **{k: str(v) for k, v in kw_real.items()}})
+        real = interpolate.interp1d(xs, ys, fill_value="extrapolate", assume_sorted=True)
+        for q in qs:
+            got = run(lambda: Interp1d(SymArray(X), SymArray(Y), fill_value="extrapolate", assume_sorted=True)(Q(repr(q))))
+            job.validate("interp1d(assume_sorted=True)", float(got), float(real(q)), inputs={"x": xs, "y": ys, "q": q})
         real = integrate.cumulative_trapezoid(ys, xs, initial=0)
         got = run(lambda: cumulative_trapezoid(SymArray(Y), SymArray(X), initial=0))
         for a, b in zip(got.d, real):
